@@ -30,6 +30,8 @@ ANCHORS = [
     ("block_manager.go", "fpBmBeforeRegister", "requestBlock", r"^\s*\}\)\s*$", r"^\s*m\.downloaderLock\.Lock\(\)\s*$"),
     # between marking the request complete and removing the finished downloader
     ("block_manager.go", "fpBmFinishBeforeRemove", "onDownloaderCompleted", r"^\s*c\.manager\.markBlockRequestComplete\(ctx, hash\)\s*$", r"^\s*c\.manager\.removeDownloader\(ctx, c\.downloader\)\s*$"),
+    # node manager: between reading the restart flag (under the lock) and the sync thread ending
+    ("node_manager.go", "fpNmAfterRestartFlagRead", "runSynchronizeBlocks", r"^\s*m\.blockManagerLock\.Unlock\(\)\s*$", r"^\s*if !blockSyncNeeded \{\s*$"),
     # poll: between counting the active downloads and deciding to request again
     ("block_manager.go", "fpBmPollAfterCount", "processRequest", r"^\s*activeDownloadCount := len\(downloaders\)\s*$", r"^\s*if activeDownloadCount > 0 \{\s*$"),
 ]
